@@ -240,7 +240,7 @@ class Obligations:
 EXTRA_PROPS = {
     "C06": ["MgrReach", "C06ReachSpec", "C06Reach"], "C09": ["MgrReach", "C09Settles"], "C10": ["MgrReach", "C10Reach"], "C13": ["MgrReach"], "C16": ["MgrReach", "C16Reach"], "C11": ["C11More"],
     "C15": ["C15Full"], "C01": ["C01Full"], "C07": ["C07Full"], "C14": ["C14Shift"], "C12": ["C12Idx"],
-    "C05": ["C05Reasm", "C05More"], "C08": ["C05More"],
+    "C05": ["C05Reasm", "C05More"], "C08": ["C05More", "C08Chrono"],
 }
 
 
